@@ -77,12 +77,142 @@ def runSplit (pdt : Option TI) (pp : Dict) (mem : List (Option TI × Dict)) (mi 
   " fresh=" ++ showBool fresh ++
   " | " ++ obs r.1 ++ " | " ++ obs h2 ++ " | " ++ obs h3
 
+/-! ### histories on one live multi-shape (`mu.hist`)
+
+`mu.hist <K> <init> | <pool tokens> | <argument tokens> | <coordinate tokens> | <tables> | <steps>`
+
+The multi-shape's only state is its member list (and, for `split`, its `dt` and property dictionary): the loops read
+`self.geoshapes` afresh on every call.  The model therefore keeps the current members as a list of pool indices, edits
+it as the harness edits `M.geoshapes`, and answers every observation with the member loops over the *current* list.
+
+tables (measured on the implementation's single-shape methods, `i` over the pool, `k` over the parts of argument `j`):
+`A<j>=P|S|M` (argument is a point / another single shape / a multi-shape), `I<j>` rows `pool_i.intersects_shape(part_k)`,
+`J<j>` rows `part_k.intersects_shape(pool_i)`, `C<j>` rows `pool_i.contains_shape(part_k)`, `D<j>` row
+`arg.contains_shape(pool_i)` (`-` for a multi argument), `K<r>` row `pool_i.contains_coordinate(c_r)`, `X` boxes.
+steps: `-k` delete position k, `+k:i` insert pool member i at k, `*k:i` replace, `o<perm>` reorder, `z<list>` / `Z<list>`
+clear and refill (in place / new list object), `!k` time/property edit of the member at k (no geometric effect),
+`P<key>=<val>` / `D<dt>` the multi-shape's own properties / time bounds;
+`i<j>` `I<j>` (mirrored) `c<j>` `C<j>` (mirrored, single arguments) `k<r>` `b` (bounds) `s` (split). -/
+
+structure MState where
+  members : List Nat
+  pdt : Option TI
+  pp : Dict
+
+def lookup (tabs : List (String × String)) (k : String) : String :=
+  match tabs.find? (·.1 == k) with
+  | some kv => kv.2
+  | none => "-"
+
+def parseMat (s : String) : List (List Bool) :=
+  if s == "-" then [] else (s.splitOn "/").map fun r => (parseRow r).getD []
+
+def parseIdxList (s : String) : Option (List Nat) :=
+  if s == "-" || s == "" then some [] else optAll ((s.splitOn ",").map parseNat)
+
+def parsePair2 (s : String) : Option (Nat × Nat) :=
+  match s.splitOn ":" with
+  | [a, b] => do let x ← parseNat a; let y ← parseNat b; some (x, y)
+  | _ => none
+
+def splitObs (st : MState) : String :=
+  let h0 : Heap := st.pp :: st.members.map (fun _ => [])
+  let ms : List (Shp Nat) := (List.range st.members.length).map fun i =>
+    { geom := st.members.getD i 0, dt := none, props := i + 1 }
+  let r := split h0 st.pdt 0 ms
+  let addrs := r.2.map (·.props)
+  let old := List.range h0.length
+  let fresh := addrs.all (fun a => !old.contains a) && addrs.eraseDups.length == addrs.length
+  "{geom=" ++ ",".intercalate (r.2.map fun s => toString s.geom) ++
+  " dt=" ++ "/".intercalate (r.2.map fun s => showOptTI s.dt) ++
+  " props=" ++ "/".intercalate (r.2.map fun s => showDict (r.1.read s.props)) ++
+  " fresh=" ++ showBool fresh ++ "}"
+
+def histObs (tabs : List (String × String)) (st : MState) (kind : Char) (j : String) : Option String :=
+  let ms := st.members
+  let a := lookup tabs ("A" ++ j)
+  let parts (m : List (List Bool)) : Nat := (m.headD []).length
+  match kind with
+  | 'i' =>
+    let m := parseMat (lookup tabs ("I" ++ j))
+    some (showBool (intersectsShape (fun (i k : Nat) => matAt m i k) ms
+      (if a == "M" then .multi (List.range (parts m)) else .single 0)))
+  | 'I' =>
+    let mi := parseMat (lookup tabs ("I" ++ j))
+    let mj := parseMat (lookup tabs ("J" ++ j))
+    if a == "P" then some (showBool (pointIntersectsMulti (fun (i : Nat) (_ : Unit) => matAt mi i 0) () ms))
+    else if a == "S" then some (showBool (singleIntersectsMulti (fun (_ : Unit) (i : Nat) => matAt mj i 0) () ms))
+    else some (showBool (intersectsShape (fun (k i : Nat) => matAt mj i k) (List.range (parts mj)) (.multi ms)))
+  | 'c' =>
+    let m := parseMat (lookup tabs ("C" ++ j))
+    some (showBool (containsShape (fun (i k : Nat) => matAt m i k) ms
+      (if a == "M" then .multi (List.range (parts m)) else .single 0)))
+  | 'C' =>
+    match parseRow (lookup tabs ("D" ++ j)) with
+    | some d => some (showBool (singleContainsMulti (fun (_ : Unit) (i : Nat) => rowAt d i) () ms))
+    | none => none
+  | 'k' =>
+    match parseRow (lookup tabs ("K" ++ j)) with
+    | some r => some (showBool (containsCoord (fun (i : Nat) (_ : Unit) => rowAt r i) ms ()))
+    | none => none
+  | _ => none
+
+def histStep (tabs : List (String × String)) (boxes : List Box) (st : MState) (step : String) :
+    Option (MState × String) :=
+  match step.toList with
+  | ['b'] =>
+    match bounds (st.members.map fun i => boxes.getD i (0, 0, 0, 0)) with
+    | .ok b => some (st, s!"{showRat b.1},{showRat b.2.1},{showRat b.2.2.1},{showRat b.2.2.2}")
+    | .error e => some (st, e)
+  | ['s'] => some (st, splitObs st)
+  | '-' :: r => (parseNat (String.ofList r)).map fun k => ({ st with members := st.members.eraseIdx k }, "ok")
+  | '+' :: r => (parsePair2 (String.ofList r)).map fun (k, i) =>
+      ({ st with members := st.members.take k ++ [i] ++ st.members.drop k }, "ok")
+  | '*' :: r => (parsePair2 (String.ofList r)).map fun (k, i) => ({ st with members := st.members.set k i }, "ok")
+  | 'o' :: r => (parseIdxList (String.ofList r)).map fun perm =>
+      ({ st with members := perm.map fun p => st.members.getD p 0 }, "ok")
+  | 'z' :: r => (parseIdxList (String.ofList r)).map fun l => ({ st with members := l }, "ok")
+  | 'Z' :: r => (parseIdxList (String.ofList r)).map fun l => ({ st with members := l }, "ok")
+  | '!' :: _ => some (st, "ok")
+  | 'P' :: r =>
+    match (String.ofList r).splitOn "=" with
+    | [k, v] => some ({ st with pp := dictSet st.pp k v }, "ok")
+    | _ => none
+  | 'D' :: r => (parseOptTI (String.ofList r)).map fun d => ({ st with pdt := d }, "ok")
+  | c :: r => (histObs tabs st c (String.ofList r)).map fun a => (st, a)
+  | [] => none
+
+def runHist (tabs : List (String × String)) (boxes : List Box) : MState → List String → Option (List String)
+  | _, [] => some []
+  | st, s :: rest =>
+    match histStep tabs boxes st s with
+    | some (st', tok) => (runHist tabs boxes st' rest).map (tok :: ·)
+    | none => none
+
+def handleHist (secs : List (List String)) : String :=
+  match secs with
+  | [[_k, init], _pool, _args, _coords, tables, steps] =>
+    let tabs : List (String × String) := tables.filterMap fun t =>
+      match t.splitOn "=" with
+      | k :: v :: rest => some (k, "=".intercalate (v :: rest))
+      | _ => none
+    let boxes := (if lookup tabs "X" == "-" then [] else (lookup tabs "X").splitOn "~").filterMap parseBox
+    match parseIdxList init with
+    | some ms =>
+      match runHist tabs boxes { members := ms, pdt := none, pp := [] } steps with
+      | some toks => " ".intercalate toks
+      | none => "bad-op"
+    | none => "bad-op"
+  | _ => "bad-op"
+
+
 end GV.Drv.C04
 
 namespace GV.Drv
 open GV GV.Multi GV.Drv.C04
 
 def handleMulti (op : String) (args : List String) : String :=
+  if op == "hist" then handleHist (splitAt "|" args) else
   let data := (splitAt "|" args).getLastD []
   match op, data with
   | "cc", [row] =>
